@@ -86,6 +86,57 @@ def child_main():
     print(json.dumps(out))
 
 
+def job_pushed_signal_probe():
+    """A trading-signal source whose handler places a market order; the signal is pushed by a job scheduled at the time T
+    of a bar (a strategy that re-evaluates on a timer), dated T.  Returns [(subscription, placed_at, filled_at)] for
+    fills that are not later than the submission."""
+    import asyncio
+    import datetime
+    from decimal import Decimal
+    import basana as bs
+    from basana.core import event, bar
+    from basana.backtesting import exchange as bx
+    from basana.core.enums import OrderOperation
+    T0 = datetime.datetime(2024, 1, 1, tzinfo=datetime.timezone.utc)
+    pair = bs.Pair("BTC", "USD")
+
+    class Signal(event.Event):
+        pass
+
+    async def main(signal_first):
+        d = bs.backtesting_dispatcher()
+        e = bx.Exchange(d, {"USD": Decimal(100000)})
+        e.set_symbol_precision("BTC", 8)
+        e.set_symbol_precision("USD", 2)
+        bars = [bar.BarEvent(T0 + datetime.timedelta(minutes=k + 1),
+                             bar.Bar(T0 + datetime.timedelta(minutes=k), pair, Decimal(100 + 10 * k), Decimal(200),
+                                     Decimal(50), Decimal(100 + 10 * k), Decimal(1000))) for k in range(4)]
+        sig = event.FifoQueueEventSource()
+        placed, fills = {}, []
+
+        async def on_signal(ev):
+            r = await e.create_market_order(OrderOperation.BUY, pair, Decimal(1))
+            placed[r.id] = d.now()
+        if signal_first:
+            d.subscribe(sig, on_signal)
+        e.add_bar_source(event.FifoQueueEventSource(events=bars))
+        if not signal_first:
+            d.subscribe(sig, on_signal)
+
+        async def on_order(ev):
+            if ev.order.amount_filled > 0:
+                fills.append((ev.order.id, ev.when))
+        e.subscribe_to_order_events(on_order)
+
+        async def job():
+            sig.push(Signal(d.now()))
+        d.schedule(T0 + datetime.timedelta(minutes=2), job)
+        await d.run(stop_signals=[])
+        return [("signal source subscribed before the bar source" if signal_first else "signal source subscribed after the bar source",
+                 str(placed[oid]), str(when)) for oid, when in fills if when <= placed[oid]]
+    return asyncio.run(main(True)) + asyncio.run(main(False))
+
+
 def run(chk):
     chk.proof_stage()
     chk.coverage["rule"] = (
@@ -101,6 +152,14 @@ def run(chk):
               for i in range(common.tier_n(chk.tier, 12, 100))]
     # both orientations of a market, symbols that have no price yet: conversions must not depend on set / dict order
     cases += [xg.gen_case(rnd, ["inverse", "noprice", "margin"][i % 3], "small") for i in range(common.tier_n(chk.tier, 18, 150))]
+    # a derived event that shares the batch of the bar of its instant (pushed by a scheduled job)
+    bad = job_pushed_signal_probe()
+    chk.count("job_pushed_signal_probes", 2)
+    if bad:
+        chk.violation("lookahead:job-pushed-signal-shares-the-bars-batch",
+                      f"an order placed while handling a trading signal dated T (pushed by a job scheduled at T) was filled by "
+                      f"the bar dated T: {bad}", {"kind": "monitor", "observed": bad,
+                                                 "how_to_replay": "harness.props.c03.job_pushed_signal_probe()"})
     # strategies that decide from what they read back (get_balances) and react to their own fills
     cases += [xg.gen_case(rnd, "adaptive", "small") for i in range(common.tier_n(chk.tier, 24, 200))]
     items, owners = [], []
